@@ -71,13 +71,29 @@ class Worker:
         self.proc = subprocess.Popen([PY, "-m", "vf.worker", self.jobfile], cwd=workdir, env=worker_env(),
                                      stdout=self.lf, stderr=subprocess.STDOUT, stdin=subprocess.DEVNULL)
 
-    def wait(self, timeout=None):
-        try:
-            rc = self.proc.wait(timeout=timeout)
-        except subprocess.TimeoutExpired:
-            self.proc.kill()
-            self.proc.wait()
-            rc = "timeout"
+    def wait(self, timeout=None, stall=None):
+        """Wait for the worker.  `stall`: kill it when it has been busy with one and the same journalled case for
+        that many seconds (code under test spinning inside C code cannot be interrupted from inside)."""
+        t_end = None if timeout is None else time.time() + timeout
+        rc = None
+        while True:
+            try:
+                rc = self.proc.wait(timeout=2.0)
+                break
+            except subprocess.TimeoutExpired:
+                pass
+            now = time.time()
+            stalled = False
+            if stall is not None:
+                try:
+                    stalled = now - os.path.getmtime(self.journal) > stall
+                except OSError:
+                    stalled = False
+            if stalled or (t_end is not None and now > t_end):
+                self.proc.kill()
+                self.proc.wait()
+                rc = "timeout"
+                break
         self.lf.close()
         self.rc = rc
         self.result = None
@@ -112,12 +128,15 @@ class Worker:
         return f"exit{self.rc}"
 
 
+STALL_S = {"quick": 180.0, "thorough": 600.0}
+
+
 def replay_cases(prop, cases, tier, seed, workdir, logdir, tag="replay", timeout=1800):
     """Execute cases in crash-isolated workers.  Returns list of {'fails':[...]} (crash -> a crash fail)."""
     if not cases:
         return []
     w = Worker(prop, {"mode": "replay", "cases": cases, "tier": tier, "seed": seed}, tag, workdir, logdir)
-    w.wait(timeout)
+    w.wait(timeout, stall=STALL_S.get(tier, 600.0))
     if not w.died:
         if not w.result.get("ok"):
             raise HarnessFailure(f"replay worker error:\n{w.result.get('error')}")
@@ -301,7 +320,7 @@ def _main(prop, args, seed, t0, workdir, logdir):
     workers = [Worker(prop, j, f"shard{i}", workdir, logdir) for i, j in enumerate(jobs)]
     results = []
     for i, w in enumerate(workers):
-        w.wait(budget * 2 + 300)
+        w.wait(budget * 2 + 300, stall=STALL_S.get(tier, 600.0))
         if w.died:
             res = handle_death(prop, w, jobs[i], tier, seed, workdir, logdir, violations)
             if res is not None:
@@ -388,7 +407,7 @@ def handle_death(prop, w, job, tier, seed, workdir, logdir, violations):
                 violations.append((v["signature"], write_violation(prop, seed, v)))
                 return None
     w2 = Worker(prop, job, w.tag + "_rerun", workdir, logdir)
-    w2.wait(job["budget_s"] * 2 + 300)
+    w2.wait(job["budget_s"] * 2 + 300, stall=STALL_S.get(tier, 600.0))
     if w2.died:
         v = {"signature": f"crash|shard|{w2.death_name()}", "case": {"kind": "_shard", "job": job}, "sub": "crash",
              "detail": {"first_death": name, "log": w2.logfile}}
